@@ -13,7 +13,7 @@ cd $W || exit 2
 git checkout -q -- . ; rm -rf examples tests_demo
 echo "== apply"; git apply $D/patch.diff || { echo RESULT=patch-does-not-apply; exit 0; }
 echo "== build"; cargo build --offline 2>&1 | tail -2
-mkdir -p examples; cp $D/demo.rs examples/demo.rs 2>/dev/null
+mkdir -p examples; DEMO=$D/demo.rs; [ -f $DEMO ] || DEMO=$(ls $D/*.rs 2>/dev/null | head -1); cp $DEMO examples/demo.rs 2>/dev/null
 echo "== demo with change (expect failure)"
 timeout 1800 cargo run --offline --example demo > $D/demo_with.log 2>&1; RW=$?
 tail -5 $D/demo_with.log; echo "demo exit with change: $RW"
